@@ -286,3 +286,39 @@ Proof.
   destruct (IH s') as [sch' E]. destruct (stepA_is_run _ _ _ Hs) as [pre Hp].
   exists (pre ++ sch'). rewrite run_app, Hp. exact E.
 Qed.
+
+(* ---------- statements in the form used by Properties/C20.v ---------- *)
+Lemma refuted_close_window_ex :
+  exists nclose sch,
+    let s := run (init nclose) sch in
+    monotone s = false /\ hist s = [Closed; Closing] /\ rs s = Closing /\ pc_done s = true.
+Proof.
+  exists 1, [4; 4; 1; 4]. cbv zeta.
+  destruct refuted_close_window as (H1 & H2 & H3 & H4). repeat split; assumption.
+Qed.
+
+Lemma refuted_open_window_ex :
+  exists nclose sch,
+    let s := run (init nclose) sch in
+    monotone s = false /\ hist s = [Closing; Open] /\ rs s = Open /\ rl_started s = false.
+Proof.
+  exists 1, [0; 4; 4; 4; 0]. cbv zeta.
+  destruct refuted_open_window as (H1 & H2 & H3 & H4). repeat split; assumption.
+Qed.
+
+Lemma refuted_open_after_pcclose_ex :
+  exists sch, let s := run (init 0) sch in monotone s = false /\ hist s = [Closed; Open].
+Proof.
+  exists [0; 1; 0]. cbv zeta. destruct refuted_open_after_pcclose as (H1 & H2). auto.
+Qed.
+
+Lemma refuted_never_closed_ex :
+  exists sch,
+    let s := run (init 1) sch in
+    closers s = [CDone] /\ o_pc s = ODone /\ gone s = true /\ step s 3 = None /\
+    close_calls s = 1 /\ rs s = Closing.
+Proof.
+  exists [4; 4; 4; 0; 2; 3]. cbv zeta.
+  destruct refuted_never_closed as (H1 & H2 & H3 & H4 & H5 & H6 & H7).
+  repeat split; assumption.
+Qed.
